@@ -27,6 +27,7 @@ type vcAttr struct {
 	Prev      string   `json:"prev"`
 	Life      string   `json:"life"`
 	Clockless bool     `json:"clockless"`
+	OwnSrc    bool     `json:"ownsrc"` // received from a peer, but the source is an endpoint of this node (a bundle of ours coming back after we lost it)
 	Tsg       int      `json:"tsg"`
 	Req       []string `json:"req"`
 	Admin     bool     `json:"admin"`
@@ -443,6 +444,9 @@ func (w *vcWorld) build(name string) bpv7.Bundle {
 	a := w.cat[name]
 	idx := sort.SearchStrings(w.names, name)
 	src := "dtn://src-" + name + "/"
+	if a.OwnSrc {
+		src = "dtn://node/app"
+	}
 	if a.Origin == "app" {
 		src = "dtn://node/app"
 		if a.Anon {
@@ -457,6 +461,8 @@ func (w *vcWorld) build(name string) bpv7.Bundle {
 		dst = "dtn://node/app"
 	case "noagent":
 		dst = "dtn://node/none"
+	case "self":
+		dst = "dtn://node/"
 	case "late":
 		dst = "dtn://late/in"
 	case "bcast":
